@@ -25,6 +25,7 @@ type Oblig struct {
 	Text   string // source text / clause text
 	Func   string
 	IsCover bool // a query that must be SAT (vacuity guard)
+	Epoch   int  // number of forgetting cuts (`option cut-forget`) passed before this obligation was generated
 }
 
 // State is a symbolic program state: path condition + heap versions.
@@ -100,6 +101,9 @@ type VC struct {
 	paramInvs map[string]string
 	opaque    map[string]bool
 	closedness bool
+	noSafety  bool // VerifyOpts.NoSafety
+	specRanges bool // `option spec-ranges` (eval.go inlineSpec)
+	epoch     int  // forgetting cuts passed so far (Oblig.Epoch)
 	lenTerms  []string
 }
 
@@ -720,6 +724,12 @@ func (vc *VC) loadGlobal(st *State, g *ssa.Global) Val {
 						vc.assert(not(eq(n, o)))
 					}
 					vc.errGlobals = append(vc.errGlobals, n)
+					// a package-level `var ErrX = errors.New(...)` that is never reassigned holds a *errors.errorString: its dynamic
+					// type is known (needed to tell it apart from the struct-typed errors of the same package in type tests)
+					if et := vc.eng.errorsNewType(g); et != nil {
+						vc.declIface()
+						vc.assert(eq(app("itag", n), vc.typeTag(et)))
+					}
 				}
 			}
 			ts = append(ts, n)
@@ -1104,7 +1114,24 @@ func (vc *VC) iteVal(c string, a, b Val) Val {
 		if av.S == "Nil" {
 			return b
 		}
-		return Scalar{ite(c, av.T, bv.T), av.S}
+		t := ite(c, av.T, bv.T)
+		if av.S == "Int" && bv.S == "Int" {
+			// interval of a merge = hull of the intervals of its branches (keeps the wrap-around function out of sums of
+			// small constants that go through an if/switch, e.g. the length passes of generated encoders)
+			alo, ahi := vc.rangeOf(av.T, nil)
+			blo, bhi := vc.rangeOf(bv.T, nil)
+			if alo != nil && ahi != nil && blo != nil && bhi != nil {
+				lo, hi := alo, ahi
+				if blo.Cmp(lo) < 0 {
+					lo = blo
+				}
+				if bhi.Cmp(hi) > 0 {
+					hi = bhi
+				}
+				vc.setRange(t, lo, hi)
+			}
+		}
+		return Scalar{t, av.S}
 	case *SliceV:
 		bv := b.(*SliceV)
 		return &SliceV{ite(c, av.Arr, bv.Arr), ite(c, av.Off, bv.Off), ite(c, av.Len, bv.Len), ite(c, av.Cap, bv.Cap)}
@@ -1277,6 +1304,13 @@ func (vc *VC) isRecursiveSpec(sf *SpecFunc) bool {
 		return r
 	}
 	rec := false
+	// A spec function whose doc comment carries the marker "gcv:uf" is treated like a recursive one: an uninterpreted
+	// function of its arguments and of the heaps it reads, with its body as definition, unfolded at ground applications
+	// only. (Inside a quantifier it stays an atom, so instantiating "forall k: P(k)" yields exactly the atom P(i) that a
+	// later obligation asks for, instead of a second copy of P's body.)
+	if sf.Decl.Doc != nil && strings.Contains(sf.Decl.Doc.Text(), "gcv:uf") {
+		rec = true
+	}
 	if sf.Decl.Body != nil {
 		ast.Inspect(sf.Decl.Body, func(n ast.Node) bool {
 			if c, ok := n.(*ast.CallExpr); ok {
@@ -1317,7 +1351,20 @@ func (vc *VC) specApp(e *Env, sf *SpecFunc, sig *types.Signature, args []TV, rt 
 	}
 	for i, a := range args {
 		pt := sig.Params().At(i).Type()
-		ts := flatT(pt, a.V)
+		var ts []string
+		if p, ok := a.V.(Ptr); ok && (p.Path != "" || p.isElem()) && !(p.isElem() && p.Path == "") {
+			// A pointer INTO a slice element (&s[i].f, the sub-encoder of element i) as argument of an uninterpreted spec
+			// function: only the identity of the pointer matters here (the body, when unfolded, works with the structured
+			// pointer itself). sub/eptr are injective (prelude), the path gets a number of its own: equal pointers give
+			// equal terms, different pointers different terms.
+			if p.isElem() {
+				ts = []string{app("sub", app("eptr", p.Base, p.Idx), subID(p.Root, "path:"+p.Path))}
+			} else {
+				ts = []string{app("sub", p.Base, subID(p.Root, "path:"+p.Path))}
+			}
+		} else {
+			ts = flatT(pt, a.V)
+		}
 		for j, l := range leaves(pt) {
 			argTerms = append(argTerms, ts[j])
 			argSorts = append(argSorts, l.Sort)
